@@ -55,17 +55,14 @@ def child_env(th):
 
 
 def run_worker(args, env, timeout=None, slot=None):
-    """Every worker gets a PRIVATE numba cache dir (numba's on-disk cache is not safe when several processes
-    first-compile different signatures of one function concurrently), seeded from the persistent per-tree,
-    per-property cache that only ever is written by one finished worker (atomic rename)."""
+    """Every worker gets a PRIVATE, EMPTY numba cache dir: numba's on-disk cache is not safe across processes
+    here (concurrent first-compiles of different signatures clobber index entries, and cached object code for
+    record dtypes refers to per-process type ids), so nothing compiled by another process is ever loaded."""
     env = dict(env)
     if slot is not None:
         priv = os.path.join(env["VERIF_SCRATCH"], f"numba-{slot}")
-        seed_dir = env["VERIF_NUMBA_PERSIST"]
-        if os.path.isdir(seed_dir):
-            shutil.copytree(seed_dir, priv, dirs_exist_ok=True)
-        else:
-            os.makedirs(priv, exist_ok=True)
+        shutil.rmtree(priv, ignore_errors=True)
+        os.makedirs(priv, exist_ok=True)
         env["NUMBA_CACHE_DIR"] = priv
     return subprocess.Popen([sys.executable, "-m", "vf.shard"] + args, env=env, cwd=HERE,
                             stdout=subprocess.DEVNULL if not os.environ.get("VERIF_DEBUG") else None,
@@ -216,13 +213,6 @@ def _main(a, prop, seed, env, run_dir, t0):
             harness_errors.append(f"shard {i}: {res.get('error')}")
         else:
             shard_res.append(res)
-    persist = env["VERIF_NUMBA_PERSIST"]
-    if not os.path.isdir(persist) and not harness_errors:
-        try:
-            os.makedirs(os.path.dirname(persist), exist_ok=True)
-            os.rename(os.path.join(run_dir, "numba-0"), persist)
-        except OSError:
-            pass
     if harness_errors:
         for h in harness_errors[:3]:
             print("HARNESS-ERROR", h)
